@@ -33,7 +33,7 @@ const DSL_NAMES: &[&str] = &["a", "b", "name", "k1", "k2", "ty-pe", "x_y", "type
 /// other control characters, DEL, C1 control, Latin-1, combining mark (Grapheme_Extend), zero-width /
 /// format characters, CJK, astral plane, private use, line separator, noncharacter-adjacent maximum.
 pub const STRS: &[&str] = &["", "a", "ab", "x y", "a\"q", "it's", "\\", "\\\\n", "tab\t", "nl\n", "cr\r", "nul\0x", "\u{1}", "\u{1b}[0m", "\u{1f}",
-    "\u{7f}", "\u{85}", "\u{a0}", "\u{ad}", "héllo", "e\u{301}", "\u{200b}", "\u{200d}", "日本", "😀", "\u{e000}", "\u{2028}", "\u{10ffff}", "\u{feff}",
+    "\u{7f}", "\u{85}", "\u{a0}", "\u{ad}", "héllo", "e\u{301}", "\u{200b}", "\u{200d}", "日本", "😀", "\u{e000}", "\u{2028}", "\u{2029}", "a\u{2029}b", "\u{2027}\u{202a}", "\u{10ffff}", "\u{feff}", "\u{fffd}", "\u{d7ff}\u{e000}",
     "{}", "[1, 2]", "#null", "node 0", "  k: v", "edge 0 -> 1", "a: b", "\"", "\"\"", "{\"type\":\"int\"}", "ß→∀"];
 
 #[derive(Clone, Debug)]
